@@ -394,7 +394,7 @@ func drawCase(t *rapid.T, long bool) Case {
 	s := c10.Spec{Seed: rapid.Uint64Range(1, 1<<40).Draw(t, "seed"), Cred: rapid.SampledFrom([]string{"password", "keytab", "keytab"}).Draw(t, "cred"),
 		ETypes:  []int32{rapid.SampledFrom([]int32{ref.AES128SHA1, ref.AES256SHA1, ref.RC4, ref.AES128SHA2}).Draw(t, "etype")},
 		Preauth: rapid.SampledFrom([]string{"none", "required", "assume"}).Draw(t, "preauth"), NoAddr: true, KDCs: rapid.IntRange(1, 3).Draw(t, "kdcs"),
-		RenewLife: rapid.SampledFrom([]string{"", "10m"}).Draw(t, "renew"), Via: "referral"}
+		RenewLife: rapid.SampledFrom([]string{"", "10m"}).Draw(t, "renew"), Via: "referral", DupKDC: rapid.IntRange(0, 3).Draw(t, "dupkdc") == 0}
 	if long || rapid.Bool().Draw(t, "shortTGT") {
 		nl := 6
 		if long {
@@ -499,6 +499,9 @@ func TestProp(t *testing.T) {
 			for range c.Also {
 				r.Count(nt+"+", "kind:long")
 			}
+		}
+		if c.Spec.DupKDC {
+			r.Label("config:duplicate-kdc-entry")
 		}
 		r.Count(nt, fmt.Sprintf("goroutines:%d", ng), fmt.Sprintf("kdcs:%d", c.Spec.KDCs), "cred:"+c.Spec.Cred, "kind:"+kind)
 		if len(c.Also) == 0 {
